@@ -294,7 +294,7 @@ def main(argv=None):
     run = Run('C15', argv)
     if run.replay:
         return replay(run)
-    ok = run.build(['Properties/C15.vo'], gen=('params',), obligation_files=['Properties/C15.v'])
+    ok = run.build(['Properties/C15.vo'], gen=('params', 'tables'), obligation_files=['Properties/C15.v'])
     if ok:
         run.print_assumptions('Properties.C15', [n for n, _ in theorems_of('Properties/C15.v')])
     rng = run.rng
